@@ -140,9 +140,13 @@ def _pos_by_id(a, ids):
 
 # ---- put_src(action='offset') on token gaps ------------------------------------------------------------------------
 
+FSTR_STRUCT = {'{', '}', '!', ':', '=', '(', ')', '[', ']'}
+
+
 def gaps(src):
-    """[(ln, col, end_ln, end_col, depth, at_line_start)] char coordinates, 0-based lines; gaps between consecutive
-    significant tokens where whitespace may be changed (not inside f-strings, not indentation)."""
+    """[(ln, col, end_ln, end_col, depth, in_fstring)] char coordinates, 0-based lines; gaps between consecutive
+    significant tokens where whitespace may be changed (not indentation; inside f-strings only between ordinary tokens of a
+    replacement field, away from the field's structural tokens)."""
     out = []
     try:
         toks = util.tokens(src)
@@ -151,34 +155,61 @@ def gaps(src):
     depth = 0
     fdepth = 0
     prev = None
+    prev_tok = None
     for t in toks:
         name = tokenize.tok_name[t.type]
         if t.type in (tokenize.INDENT, tokenize.DEDENT, tokenize.ENDMARKER):
             continue
         if t.type in (tokenize.NEWLINE, tokenize.NL, tokenize.COMMENT):
-            prev = None if t.type != tokenize.COMMENT else None
+            prev = None
+            prev_tok = None
             continue
         if name == 'FSTRING_START':
             if prev is not None and fdepth == 0:
-                out.append((prev[0] - 1, prev[1], t.start[0] - 1, t.start[1], depth))
+                out.append((prev[0] - 1, prev[1], t.start[0] - 1, t.start[1], depth, False))
             fdepth += 1
             prev = None
+            prev_tok = None
             continue
         if name == 'FSTRING_END':
             fdepth -= 1
             prev = t.end if fdepth == 0 else None
+            prev_tok = None
+            continue
+        if name == 'FSTRING_MIDDLE':
+            prev = None
+            prev_tok = None
             continue
         if fdepth > 0:
+            ok = (t.type != tokenize.OP or t.string not in FSTR_STRUCT)
+            if prev is not None and prev_tok is not None and ok and prev[0] == t.start[0]:
+                out.append((prev[0] - 1, prev[1], t.start[0] - 1, t.start[1], 1, True))
+            prev = t.end if ok else None
+            prev_tok = t if ok else None
             continue
         if prev is not None:
-            out.append((prev[0] - 1, prev[1], t.start[0] - 1, t.start[1], depth))
+            out.append((prev[0] - 1, prev[1], t.start[0] - 1, t.start[1], depth, False))
         if t.type == tokenize.OP:
             if t.string in '([{':
                 depth += 1
             elif t.string in ')]}':
                 depth -= 1
         prev = t.end
+        prev_tok = t
     return out
+
+
+def _norm_fstr_consts(tree):
+    """ast.dump with the string Constants inside JoinedStr blanked (debug-field text legitimately follows whitespace)"""
+    tree = ast.parse(ast.unparse(tree)) if False else tree
+    import copy as _copy
+    t = _copy.deepcopy(tree)
+    for n in ast.walk(t):
+        if isinstance(n, ast.JoinedStr):
+            for v in n.values:
+                if isinstance(v, ast.Constant) and isinstance(v.value, str):
+                    v.value = ''
+    return ast.dump(t)
 
 
 def _replacements(rng, depth, old):
@@ -215,10 +246,11 @@ def _gap_case(arg):
         return out
     lines0 = src.split('\n')
     rng.shuffle(gs)
-    for (ln, col, end_ln, end_col, depth) in gs[:per]:
+    gs.sort(key=lambda g: not g[5])          # f-string field gaps first (rare), then the shuffled rest
+    for (ln, col, end_ln, end_col, depth, in_f) in gs[:per]:
         old = '\n'.join(lines0[ln:end_ln + 1])
         oldtxt = lines0[ln][col:end_col] if ln == end_ln else None
-        new = _replacements(rng, depth, (ln, col) != (end_ln, end_col))
+        new = rng.choice([' ', '  ', '']) if in_f else _replacements(rng, depth, (ln, col) != (end_ln, end_col))
         # predicted text (spec of the splice, plain Python)
         pre = '\n'.join(lines0[:ln] + [lines0[ln][:col]])
         post = '\n'.join([lines0[end_ln][end_col:]] + lines0[end_ln + 1:])
@@ -227,7 +259,10 @@ def _gap_case(arg):
             new_tree = ast.parse(new_src)
         except SyntaxError:
             continue
-        if ast.dump(new_tree) != ref_dump:
+        if in_f:
+            if _norm_fstr_consts(new_tree) != _norm_fstr_consts(ast.parse(src)):
+                continue
+        elif ast.dump(new_tree) != ref_dump:
             continue        # not a trivia-preserving replacement (tokens merged)
         root = _mk_fst(src)
         node = _innermost(root, ln, col, end_ln, end_col)
@@ -245,7 +280,19 @@ def _gap_case(arg):
         after = _pos_by_id(root.a, ids)
         impl = {'pos': [[i, after[i]] for i in _ids_of(tree)]}
         oracle = None
-        if root.src != new_src:
+        extra_edit = False
+        if root.src != new_src and in_f:
+            # inside an f-string field pfst may also normalise the blank between `{` and a value starting with `{`
+            # (an additional edit of its own): C11 only requires the tree to equal a parse of the resulting source
+            extra_edit = True
+            try:
+                d2 = util.dump_pos(ast.parse(root.src))
+            except SyntaxError as e:
+                d2 = f'<resulting source does not parse: {e}>'
+            d1 = util.dump_pos(root.a)
+            if d1 != d2:
+                oracle = 'tree differs from a from-scratch parse of the resulting source: ' + util.first_diff(d1, d2)
+        elif root.src != new_src:
             oracle = 'source is not the requested splice'
         else:
             d1 = util.dump_pos(root.a)
@@ -253,7 +300,8 @@ def _gap_case(arg):
             if d1 != d2:
                 oracle = 'tree differs from a from-scratch parse: ' + util.first_diff(d1, d2)
         out.append({'case': case, 'impl': impl, 'src': src, 'edit': [new, ln, col, end_ln, end_col],
-                    'kind': node.a.__class__.__name__, 'oracle': oracle, 'multiline': '\n' in new,
+                    'kind': node.a.__class__.__name__, 'oracle': oracle, 'multiline': '\n' in new, 'in_fstring': in_f,
+                    'extra_edit': extra_edit,
                     'nonascii_before': not lines0[end_ln][:end_col].isascii()})
     return out
 
@@ -319,8 +367,9 @@ def sweep(ctx):
     progs = _programs(ctx, 250 if q else 2500, 20 if q else 300)
     res = pmap(_gap_case, [(p, ctx.rng.randrange(1 << 30), 14 if q else 40) for p in progs])
     items = [it for lst in res for it in lst]
-    cases = [it['case'] for it in items]
-    impls = [it['impl'] for it in items]
+    ctx.notes['fstring_field_edits_with_extra_pfst_normalisation'] = sum(1 for it in items if it.get('extra_edit'))
+    cases = [it['case'] for it in items if not it.get('extra_edit')]
+    impls = [it['impl'] for it in items if not it.get('extra_edit')]
     nt = {id(c): True for c in cases}
     geo_false = [0]
     _compare_pos(ctx, 'put_src(offset) vs Pfst.Offset.putSrcOffset', cases, impls, nt, geo_false)
@@ -328,6 +377,7 @@ def sweep(ctx):
     for it in items:
         ctx.tally('self_kind', it['kind'])
         ctx.tally('multiline_put', it.get('multiline'))
+        ctx.tally('in_fstring_field', it.get('in_fstring'))
         ctx.tally('nonascii_before_spot', it.get('nonascii_before'))
         if it['oracle']:
             ctx.fail(f'C11|put_src-offset|{it["kind"]}|{"raised" if it["oracle"] == "raised" else "tree!=parse"}',
